@@ -1,4 +1,5 @@
 import Libp2pModel.Proofs.C24Send
+import Libp2pModel.Proofs.C24E2E
 import Libp2pModel.Props.C26
 import Libp2pModel.Model.C24
 /-!
@@ -6,9 +7,9 @@ import Libp2pModel.Model.C24
 
 mplex: proved on the one-endpoint model `Model/C26.lean` (any configuration, any inbound frame
 sequence, any sequence of local operations of any length — `C26.reach`), for the receive path and
-the send path separately.  The composition of two endpoints over a FIFO connection
-(`end_to_end_statement`) is stated but NOT proved; it is checked dynamically, for mplex and for
-yamux (external crate), against the executable end-to-end Spec `C24.specStep`.
+the send path separately, and composed: two endpoints joined by two FIFO connections, under every
+schedule (`end_to_end`, `end_to_end_accounting`).  yamux (external crate) is only checked
+dynamically against the executable end-to-end Spec `C24.specStep`.
 -/
 namespace C24
 open C25 (Sid Role Frame)
@@ -175,44 +176,65 @@ theorem spec_ok_prefix (t : SpecSt) (ev : Ev) (hg : Good t) (hok : (specStep t e
 
 theorem good_init : Good {} := by simp [Good]
 
-/-! ### what is NOT proved: the composition -/
+/-! ### the composition: two endpoints, two FIFO connections, any schedule
 
-/-- two endpoints and the frames in flight -/
-structure Sys where
-  a : MState
-  b : MState
+System model and invariant: `Proofs/C24Sys*.lean`, `Proofs/C24E2E.lean`; refinement of every endpoint
+method into atomic frame events: `Proofs/C24Micro*.lean`. -/
 
-inductive SysOp
-  | atA (op : Op)
-  | atB (op : Op)
-  | deliverAB (k : Nat)     -- the connection hands the next `k` frames written by A to B
-  | deliverBA (k : Nat)
-
-def sysStep (y : Sys) : SysOp → Sys
-  | .atA op => { y with a := (step y.a op).1 }
-  | .atB op => { y with b := (step y.b op).1 }
-  | .deliverAB k =>
-    { a := { y.a with s := { y.a.s with wire := y.a.s.wire.drop k } },
-      b := { y.b with s := { y.b.s with inq := y.b.s.inq ++ (y.a.s.wire.take k).map .frame } } }
-  | .deliverBA k =>
-    { b := { y.b with s := { y.b.s with wire := y.b.s.wire.drop k } },
-      a := { y.a with s := { y.a.s with inq := y.a.s.inq ++ (y.b.s.wire.take k).map .frame } } }
-
-def harmless : SysOp → Bool
-  | .atA (.drop _) | .atB (.drop _) | .atA .closeConn | .atB .closeConn
-  | .atA (.wire _) | .atB (.wire _) => false
-  | _ => true
-
-/-- **The full end-to-end statement (mplex)** — not proved.  For two endpoints in `Block` mode joined
-by lossless FIFO connections, under every interleaving of opens, writes, flushes, half-closes and
-reads on both sides and every chunking of the deliveries: for every substream known to both sides,
-the bytes B's reader has been handed are a prefix of the bytes A's writes were reported to accept
-(and symmetrically). -/
+/-- **The end-to-end statement (mplex).**  Two endpoints in `Block` mode joined by lossless FIFO
+connections; a schedule is any interleaving of opens, accepts, writes, flushes, half-closes and
+reads on both sides (in any order, on any substream ids, also ids that do not exist) with
+deliveries of any number of frames in either direction.  After every schedule, for every substream
+known to both sides (id `id` at A, the mirrored id at B): the bytes B's reader has been handed are a
+prefix of the bytes A's writes on THAT substream were reported to accept, and symmetrically. -/
 def end_to_end_statement : Prop :=
   ∀ (ca cb : Cfg) (ops : List SysOp), ca.block = true → cb.block = true → ops.all harmless = true →
     let y := ops.foldl sysStep { a := C26.init ca, b := C26.init cb }
     ∀ (id : Sid) (x z : Sub), y.a.s.get id = some x → y.b.s.get id.mirror = some z →
       (z.dl.flatten <+: x.acc.flatten) ∧ (x.dl.flatten <+: z.acc.flatten)
+
+/-- the system invariant holds after every schedule -/
+theorem reach_sysInv (ca cb : Cfg) (ops : List SysOp) (ha : ca.block = true) (hb : cb.block = true)
+    (ho : ops.all harmless = true) :
+    SysInv (ops.foldl sysStep { a := C26.init ca, b := C26.init cb }) :=
+  sysInv_run ops _ (sysInv_fresh ca cb ha hb) ho
+
+/-- **End-to-end integrity** — the composition of the receive-path and send-path halves. -/
+theorem end_to_end : end_to_end_statement := by
+  intro ca cb ops ha hb ho y id x z hx hz
+  have h : SysInv y := reach_sysInv ca cb ops ha hb ho
+  refine ⟨h.prefix_ab id x z hx hz, ?_⟩
+  -- the other direction: swap the roles of the two endpoints
+  have h' : SysInv { a := y.b, b := y.a } :=
+    { full := h.full.symm, ia := h.ib, ib := h.ia, ba := h.bb, bb := h.ba }
+  exact h'.prefix_ab id.mirror z x hz (by rw [mirror_mirror]; exact hx)
+
+/-- **Nothing is lost on the way** (the accounting behind `end_to_end`): after every schedule, for
+every substream known to both sides whose receiving side is still open for reading, the payloads
+A's writes were reported to accept are exactly: what B's reader has been handed, then what B
+buffers, then the Data frames of THAT substream still in flight (waiting at B, written by A, or in
+A's sink), in order. -/
+theorem end_to_end_accounting (ca cb : Cfg) (ops : List SysOp) (ha : ca.block = true) (hb : cb.block = true)
+    (ho : ops.all harmless = true) :
+    let y := ops.foldl sysStep { a := C26.init ca, b := C26.init cb }
+    ∀ (id : Sid) (x z : Sub), y.a.s.get id = some x → y.b.s.get id.mirror = some z →
+      z.st.recvOpen = true →
+      x.acc = z.dl ++ z.buf ++ dataOf id (inFrames y.b.s ++ (y.a.s.wire ++ y.a.s.sinkBuf)) := by
+  intro y id x z hx hz hro
+  have h : SysInv y := reach_sysInv ca cb ops ha hb ho
+  have h5 := h.full.xy.k5 id ⟨x.st.recvOpen, x.rx, x.acc⟩ ⟨z.st.recvOpen, z.rx, z.acc⟩
+    (by simp [entOf, hx]) (by simp [entOf, hz])
+  have hfifo : z.rx = z.dl ++ z.buf := ((h.ib.2.2 z (getSub_mem hz).1)).2.1
+  have := h5.1 hro
+  simp only at this
+  rw [hfifo] at this
+  exact this
+
+/-- only frames of the substream itself count: frames of other substreams in flight are invisible
+to the accounting -/
+theorem dataOf_other (i j : Sid) (hij : j ≠ i) (d : List Nat) (fs : List Frame) :
+    dataOf i (.data j d :: fs) = dataOf i fs :=
+  dataOf_cons_ne i _ fs (fun d' e => hij (by injection e with e1 _))
 
 /-! ### non-vacuity -/
 
@@ -223,6 +245,30 @@ example : (specStep { dirs := [{ name := ⟨.A, 0⟩, writer := .A, sent := [1, 
     (.data ⟨.A, 0⟩ .B [2])).2 = "foreign_or_reordered_bytes" := by decide
 example : (specStep { dirs := [{ name := ⟨.A, 0⟩, writer := .A, sent := [1], got := [] , closed := true }] }
     (.eof ⟨.A, 0⟩ .B)).2 = "early_eof" := by decide
+
+/-! two substreams interleaved on one connection -/
+
+def demoCfg : Cfg := { maxSubs := 8, maxBuf := 4, block := true, split := 8 }
+
+/-- two substreams opened by A, their Data frames interleaved on the connection, B reading the
+second one first -/
+def demoOps : List SysOp :=
+  [ .atA .outbound, .atA (.flush ⟨0, .dialer⟩), .atA .outbound, .atA (.flush ⟨1, .dialer⟩),
+    .atA (.write ⟨0, .dialer⟩ [1, 2]), .atA (.flush ⟨0, .dialer⟩),
+    .atA (.write ⟨1, .dialer⟩ [9]), .atA (.flush ⟨1, .dialer⟩),
+    .atA (.write ⟨0, .dialer⟩ [3]), .atA (.flush ⟨0, .dialer⟩),
+    .deliverAB 4,
+    .atB .inbound, .atB .inbound,
+    .atB (.read ⟨1, .listener⟩ 8), .atB (.read ⟨0, .listener⟩ 8) ]
+
+def demo : Sys := demoOps.foldl sysStep { a := C26.init demoCfg, b := C26.init demoCfg }
+
+example : demoOps.all harmless = true := by decide
+example : (demo.a.s.get ⟨0, .dialer⟩).map (·.acc) = some [[1, 2], [3]] := by decide
+example : (demo.a.s.get ⟨1, .dialer⟩).map (·.acc) = some [[9]] := by decide
+example : (demo.b.s.get ⟨0, .listener⟩).map (·.dl) = some [[1, 2]] := by decide
+example : (demo.b.s.get ⟨1, .listener⟩).map (·.dl) = some [[9]] := by decide
+example : demo.a.s.wire = [.data ⟨0, .dialer⟩ [3]] := by decide
 
 end C24
 
@@ -238,3 +284,6 @@ end C24
 #print axioms C24.close_emits
 #print axioms C24.flush_in_order
 #print axioms C24.spec_ok_prefix
+#print axioms C24.reach_sysInv
+#print axioms C24.end_to_end
+#print axioms C24.end_to_end_accounting
